@@ -130,6 +130,13 @@ impl<T> RawTable<T> {
     /// current elements, as well as some additional elements due to incremental resizing.
     #[cfg_attr(feature = "inline-more", inline)]
     pub(crate) fn shrink_to(&mut self, min_size: usize, hasher: impl Fn(&T) -> u64) {
+        // If the leftovers were emptied by `erase` or `replace_bucket_with` (which leave the
+        // empty old table in place), drop them now: they need no head-room, and `insert`
+        // relies on a full main table never coexisting with leftovers.
+        if matches!(self.leftovers, Some(ref lo) if lo.table.len() == 0) {
+            self.leftovers = None;
+        }
+
         // Calculate the minimal number of elements that we need to reserve
         // space for.
         let mut need = self.table.len();
